@@ -166,6 +166,21 @@ func (s *Sim) chanOrd(p unsafe.Pointer) int {
 }
 
 //go:norace
+func (s *Sim) closedSeen(task, ch int) bool {
+	key := uint64(task)<<32 | uint64(ch)
+
+	for _, k := range s.closedRecvs {
+		if k == key {
+			return true
+		}
+	}
+
+	s.closedRecvs = push(s.closedRecvs, key)
+
+	return false
+}
+
+//go:norace
 func (s *Sim) nameChan(p unsafe.Pointer, name string) {
 	o := s.chanOrd(p)
 	if o > 0 {
@@ -228,6 +243,16 @@ func (s *Sim) recordOp(kind Kind, site string, chp unsafe.Pointer, v any, ok boo
 
 	if chp != nil {
 		r.Ch = s.chanOrd(chp) // the logical name is filled in at the end of the run
+	}
+
+	if kind == KRecv && !ok && r.Ch > 0 {
+		// a polling loop learns again and again that a channel is closed (a broken
+		// breaker, a cancelled context): only the first time per task and channel is
+		// history, the repetitions would be most of an idle run's log
+		if s.closedSeen(t.id, r.Ch) {
+			s.mix(0x62, uint64(r.Ch))
+			return
+		}
 	}
 
 	if v != nil {
